@@ -64,8 +64,9 @@ MUTANTS = [
     (F_CP, 'ConfigParser._init_config_parser', "if not cp.has_section(override.section):", "if cp.has_section(override.section):", 'call-pre'),
     (F_CP, 'ConfigParser._init_config_parser', "cp[override.section][override.key] = override.value\n    return cp", "cp[override.section][override.value] = override.key\n    return cp", 'preserve/1'),
     (F_CP, 'ConfigParser._init_config_parser', "raise ConfigParserException(e.message)", "raise ValueError(e.message)", 'raises'),
-    (F_POT, '_create_override_tuple', "section, key = key.split(':', 1)", "key, section = key.split(':', 1)", 'post'),
-    (F_POT, '_create_override_tuple', "key, value = key.split('=', 1)", "value, key = key.split('=', 1)", 'post'),
+    (F_POT, '_create_override_tuple', "section, key = key.rsplit(':', 1)", "key, section = key.rsplit(':', 1)", 'post'),
+    (F_POT, '_create_override_tuple', "split_idx = key.index('=', key.index(':'))", "split_idx = key.index('=')", 'post'),
+    (F_POT, '_create_override_tuple', "key[split_idx + 1:]", "key[split_idx:]", 'post'),
     (F_POT, '_create_override_tuple', 'if has_value:', 'if not has_value:', 'post'),
     (F_POT, '_make_config_parser', "over_tuple = _create_override_tuple(override, False)", "over_tuple = _create_override_tuple(override)", 'preserve/1'),
     (F_POT, '_make_config_parser', "k = (over_tuple.section, over_tuple.key)\n            override_dict[k] = over_tuple\n    if not remove is None:", "k = (over_tuple.section, over_tuple.section)\n            override_dict[k] = over_tuple\n    if not remove is None:", 'preserve/0'),
